@@ -34,12 +34,17 @@ def exhaustive(tier):
 
 def required(tier):
     return {"answers_compared": 2500, "repeated_after_state_change": 800, "cache_hits_observed": 500,
-            "state_changes": 300, "distinct_states": 15, "second_registry_touches": 20}
+            "state_changes": 300, "distinct_states": 15, "second_registry_touches": 20,
+            "redefinition_histories": 20}
 
 
 NEWDEFS = ["vfu0 = 3 * meter = vf0", "vfu1 = 7 * vfu0", "vfu2 = 2 * pound * vfu1 / second ** 2",
            "vfu3 = 5 * kilovfu0", "vfu4 = 1.5 * degree_Celsius * 0 + 2 * kelvin"]
 NEWDEFS = NEWDEFS[:4] + ["dab = 5 * meter"]   # a NEW name that earlier lookups read as deca+barn
+# third step: an existing unit is defined AGAIN (on_redefinition='warn' is the default); every answer
+# memoised for the units built on it (vfu1, and later vfu2, vfu3, kilovfu0) must follow
+NEWDEFS = NEWDEFS[:2] + ["vfu0 = 4 * meter = vf0"] + NEWDEFS[2:]
+DEFNAMES = ("vfu0", "vfu1", "vfu0", "vfu2", "vfu3", "dab")
 SYSTEMS = ["mks", "cgs", "imperial", "SI", None]
 
 QUESTIONS = [
@@ -83,6 +88,9 @@ def shards(tier, seed):
     for i in range(10 if tier == "quick" else 24):
         out.append({"kind": "random", "name": f"random{i}", "n": 10 if tier == "quick" else 120,
                     "nit": "fraction" if i % 3 == 2 else "float"})
+    for i in range(2 if tier == "quick" else 6):
+        out.append({"kind": "redefine", "name": f"redefine{i}", "n": 12 if tier == "quick" else 150,
+                    "nit": "fraction" if i % 2 else "float"})
     return out
 
 
@@ -209,7 +217,7 @@ class World:
         return a
 
 
-def run_history(ops, world, rec, rng, tag):
+def run_history(ops, world, rec, rng, tag, pool=None):
     pint = world.pint
     ureg = world.fresh()
     stats = watch(ureg)
@@ -217,8 +225,11 @@ def run_history(ops, world, rec, rng, tag):
     asked = {}     # question -> state signature when last asked
     trace = []
     defined_inside_redef = set()   # names defined while a redefining context was active (finding D18)
+    fixed_pool = pool
     pool = rng.sample(QUESTIONS, 8)
     pool[:3] = rng.sample(QUESTIONS[-19:-4], 3)   # always some dependants of the redefined unit
+    if fixed_pool:
+        pool = fixed_pool
     pool[3] = rng.choice(QUESTIONS[-4:])           # and one question about the name that gets defined later
     for op in ops:
         state_before = (ndefs, tuple(stack), system)
@@ -226,7 +237,7 @@ def run_history(ops, world, rec, rng, tag):
             if ndefs < len(NEWDEFS):
                 ureg.define(NEWDEFS[ndefs])
                 if "vredef" in stack:
-                    defined_inside_redef.add(("vfu0", "vfu1", "vfu2", "vfu3", "dab")[ndefs])
+                    defined_inside_redef.add(DEFNAMES[ndefs])
                 ndefs += 1
                 trace.append(("define", NEWDEFS[ndefs - 1]))
                 rec.count("state_changes")
@@ -293,7 +304,7 @@ def run_history(ops, world, rec, rng, tag):
                           question_kind=q[0], redefining_context_active=in_redef,
                           redefining_context_used_earlier=was_redef and not in_redef,
                           touches_base_units=q[0] in ("base", "to_base", "compact"), workload=tag,
-                          asks_about_name_first_read_as_prefixed_unit_then_defined=("dab" in repr(q) and ndefs >= 5),
+                          asks_about_name_first_read_as_prefixed_unit_then_defined=("dab" in repr(q) and ndefs >= len(NEWDEFS)),
                           asks_about_unit_defined_inside_redefining_context=any(
                               n in repr(q) or (n == "vfu0" and "vf0" in repr(q)) for n in
                               closure_defs(defined_inside_redef)))
@@ -336,6 +347,20 @@ def run_shard(spec, rec):
                     ops += ["q%d" % i for i in range(8)]
                 run_history(ops, world, rec, rng, "bfs")
         rec.sample({"bfs_prefix_example": list(itertools.islice(itertools.product(alphabet, repeat=spec["length"]), 5, 6))})
+    elif spec["kind"] == "redefine":
+        # an existing unit is defined again after answers about the units built on it were memoised
+        vq = [q for q in QUESTIONS if "vf" in repr(q)]
+        for i in range(spec["n"]):
+            pool = rng.sample(vq, 8)
+            reads = lambda: [f"q{rng.randrange(8)}" for _ in range(rng.randint(3, 10))]  # noqa: E731
+            ops = ["define", "define"] + reads()
+            if rng.random() < 0.4:
+                ops += [rng.choice(("sys", "ctx_rule_on", "second"))] + reads()
+            ops += ["define"] + [f"q{j}" for j in range(8)]          # the redefinition, then every question
+            for _ in range(rng.randint(0, 3)):
+                ops += [rng.choice(("define", "sys", "ctx_rule_on", "ctx_off"))] + reads()
+            run_history(ops, world, rec, rng, "redefine", pool=pool)
+            rec.count("redefinition_histories")
     else:
         for i in range(spec["n"]):
             L = rng.randint(10, 60)
